@@ -54,6 +54,25 @@ func (f *frame) execCall(x *ssa.Call, in string, st *State) {
 		}
 	}
 	if callee == nil {
+		if cands := funcCandidates(cc.Value, map[ssa.Value]bool{}); len(cands) > 0 {
+			// the callee is one of finitely many known functions: case split
+			fv := f.val(cc.Value)
+			var guards []string
+			var states []*State
+			var results []Val
+			for _, c := range cands {
+				g := And(in, Eq(fv.T, vc.funcLoc(c)))
+				cs := st.Clone()
+				r := f.callFunction(c, nil, args, cc.Args, g, cs, x)
+				guards = append(guards, g)
+				states = append(states, cs)
+				results = append(results, r)
+			}
+			vc.assume(in, Or(guards...))
+			f.mergeInto(st, guards, states)
+			setResult(f.mergeVals(x.Name(), x.Type(), guards, results))
+			return
+		}
 		vc.obligeIn(f, "nil", "callfn:"+vc.anchorAt(f.fn, x.Pos(), "call"), in, Not(Eq(f.val(cc.Value).T, "Null")), x.Pos(), "call of possibly nil func value")
 		vc.note("dynamic call of func value in %s: havoc", FuncName(f.fn))
 		f.havocAllPreservingLocals(st, in, "dynamic call")
@@ -145,6 +164,9 @@ func (vc *VC) isPureExternal(full string) bool {
 // inlineCall executes the callee body in place.
 func (f *frame) inlineCall(callee *ssa.Function, bindings, args []Val, in string, st *State, site ssa.Instruction) Val {
 	vc := f.vc
+	if f.inDeclLoop(site.Block()) && writesMemory(callee) {
+		vc.unsupported("inlined callee %s writes memory inside a loop with a declared assigns frame (give it a contract)", FuncName(callee))
+	}
 	cf := vc.newFrame(callee, nil, false, in, f.depth+1)
 	for i, p := range callee.Params {
 		if i < len(args) {
@@ -243,6 +265,9 @@ func (f *frame) contractCall(callee *ssa.Function, spec *FuncSpec, args []Val, i
 	name := FuncName(callee)
 	pre := st.Clone()
 	env := vc.calleeEnv(callee, args, pre, pre)
+	for _, l := range spec.Lets {
+		env.vars[l.Kind] = vc.evalSpec(env, l.Expr)
+	}
 	for _, c := range spec.Requires {
 		t := vc.evalSpec(env, c.Expr)
 		vc.obligeIn(f, "call-requires", fmt.Sprintf("%s.%d", name, c.Idx), in, t.T, site.Pos(), "precondition of "+name+": "+c.Text)
@@ -250,6 +275,9 @@ func (f *frame) contractCall(callee *ssa.Function, spec *FuncSpec, args []Val, i
 	// frame
 	if spec.HasAssign {
 		pats := vc.assignPats(env, spec.Assigns)
+		if len(f.declFrames) > 0 && len(pats) > 0 {
+			f.checkCallFrame(site.Block(), pats, pre.Top, in, site.Pos(), "call:"+name)
+		}
 		for _, srt := range vc.allHeaps() {
 			if !patsTouch(pats, srt) {
 				continue
@@ -274,6 +302,11 @@ func (f *frame) contractCall(callee *ssa.Function, spec *FuncSpec, args []Val, i
 	}
 	res := f.freshVal(callName(site), rtype, in, st)
 	post := vc.calleeEnv(callee, args, st, pre)
+	for k, v := range env.vars {
+		if _, ok := post.vars[k]; !ok {
+			post.vars[k] = v
+		}
+	}
 	post.setResults(callee, res)
 	for _, c := range spec.Ensures {
 		t := vc.evalSpec(post, c.Expr)
